@@ -647,8 +647,9 @@ def main(modname, argv=None):
     wall = time.time() - t_start
     for e in known:
         ident = (e["kind"], e["key"])
-        if known_hits.get(ident):
-            print(f"KNOWN-FINDING: property={mod.ID} {e['description']} [{e['kind']}:{e['key']}] (hit in {known_hits[ident]} runs)")
+        n = known_hits.get(ident, 0)
+        print(f"KNOWN-FINDING: property={mod.ID} {e['description']} [{e['kind']}:{e['key']}] "
+              + (f"(hit in {n} runs)" if n else "(listed; not hit by this run's seeds)"))
     if not args.no_evidence:
         _write_evidence(mod, args, opts, total, late_new, wall, len(reported), known, known_hits, capped, nruns, harness_errors)
     print(
